@@ -43,7 +43,7 @@ func replay(out *wh.Out, line string) error {
 			if err != nil {
 				return err
 			}
-			if (strings.ContainsRune("casgeupw", rune(o.kind)) && o.i >= objs) || (o.kind == 'e' && o.j >= objs) {
+			if (strings.ContainsRune("casgeupwt", rune(o.kind)) && o.i >= objs) || (o.kind == 'e' && o.j >= objs) {
 				return fmt.Errorf("object index out of range in %q", t)
 			}
 			if strings.ContainsRune("nzcaw", rune(o.kind)) {
